@@ -229,3 +229,67 @@ package unknown
 //@ func (binaryProtocol) ReadBinary(buf []byte) (value []byte, length int, err error)
 //@   ensures 0 <= length && length <= len(buf)
 //@   ensures err == nil ==> length == 4 + len(value) && len(value) == bepack(buf, 0, 4)
+
+// ---- capture half (Fields.Append / read): no overrun ----
+// Every Binary.Write* call in read is preceded by an ensureBytesLen that makes room for exactly what it writes; the
+// writers themselves (loop-free, inlined) index and slice the buffer they are given. What is proved is safety and the
+// offset discipline (0 <= offset <= len(*buf), offsets only grow); the bytes written through sub-slices are not
+// modelled (value-semantics slices), so "Append stores the encoding of what it read" is NOT claimed.
+
+//@ func ensureBytesLen(buf *[]byte, offset, l int)
+//@   requires buf != nil && 0 <= offset && offset <= len(*buf) && 0 <= l
+//@   ensures len(*buf) - offset >= l && len(*buf) >= old(len(*buf))
+//@   modifies *buf
+
+//@ func read(buf *[]byte, offset int, iprot *protocol, name string, fieldType int, id int16, maxDepth int) (noffset int, err error)
+//@   requires buf != nil && iprot != nil && 0 <= offset && offset <= len(*buf)
+//@   ensures old(offset) <= noffset && noffset <= len(*buf) && len(*buf) >= old(len(*buf))
+//@   modifies *buf
+//@   loop 1 invariant 0 <= offset && offset <= len(*buf) && old(offset) <= offset && len(*buf) >= old(len(*buf))
+//@   loop 2 invariant 0 <= offset && offset <= len(*buf) && old(offset) <= offset && len(*buf) >= old(len(*buf))
+//@   loop 3 invariant 0 <= offset && offset <= len(*buf) && old(offset) <= offset && len(*buf) >= old(len(*buf))
+//@   loop 4 invariant 0 <= offset && offset <= len(*buf) && old(offset) <= offset && len(*buf) >= old(len(*buf))
+
+//@ func (fs *Fields) Append(xprot TProtocol, name string, fieldType TType, id int16) error
+//@   requires fs != nil
+//@   ensures len(*fs) >= old(len(*fs))
+//@   modifies *fs
+
+//@ func asInt(x interface{}) int
+//@   trusted
+
+// The source protocol, reached by reflection: opaque values, no effect on this package's state (assumed).
+//@ func (p *protocol) ReadBool(ctx context.Context) (value bool, err error)
+//@   trusted
+//@ func (p *protocol) ReadByte(ctx context.Context) (value int8, err error)
+//@   trusted
+//@ func (p *protocol) ReadI16(ctx context.Context) (value int16, err error)
+//@   trusted
+//@ func (p *protocol) ReadI32(ctx context.Context) (value int32, err error)
+//@   trusted
+//@ func (p *protocol) ReadI64(ctx context.Context) (value int64, err error)
+//@   trusted
+//@ func (p *protocol) ReadDouble(ctx context.Context) (value float64, err error)
+//@   trusted
+//@ func (p *protocol) ReadString(ctx context.Context) (value string, err error)
+//@   trusted
+//@ func (p *protocol) ReadMapBegin(ctx context.Context) (keyType, valueType, size int, err error)
+//@   trusted
+//@ func (p *protocol) ReadMapEnd(ctx context.Context) (err error)
+//@   trusted
+//@ func (p *protocol) ReadListBegin(ctx context.Context) (elemType, size int, err error)
+//@   trusted
+//@ func (p *protocol) ReadListEnd(ctx context.Context) (err error)
+//@   trusted
+//@ func (p *protocol) ReadSetBegin(ctx context.Context) (elemType, size int, err error)
+//@   trusted
+//@ func (p *protocol) ReadSetEnd(ctx context.Context) (err error)
+//@   trusted
+//@ func (p *protocol) ReadStructBegin(ctx context.Context) (name string, err error)
+//@   trusted
+//@ func (p *protocol) ReadStructEnd(ctx context.Context) (err error)
+//@   trusted
+//@ func (p *protocol) ReadFieldBegin(ctx context.Context) (name string, typeID int, id int16, err error)
+//@   trusted
+//@ func (p *protocol) ReadFieldEnd(ctx context.Context) (err error)
+//@   trusted
